@@ -881,10 +881,73 @@ pub fn parents_law<S: Src, const P1: usize, const P2: usize>(s: &mut S) {
         last_len = e.key().len();
     }
     cv!(s, want1 && d1, "parents_law: a deletion marker at a prefix");
-    cv!(s, want1 && want2, "parents_law: two parents");
+    cv!(s, !(b"ab".starts_with(MENU[P1]) && b"ab".starts_with(MENU[P2])) || (want1 && want2), "parents_law: two parents");
     ck!(s, got1 == want1, "the entries consulted for admission include every same-author entry at the key or at a prefix of it, the empty key and deletion markers included (row 1)");
     ck!(s, got2 == want2, "the entries consulted for admission include every same-author entry at the key or at a prefix of it, the empty key and deletion markers included (row 2)");
     ck!(s, n == want1 as usize + want2 as usize, "nothing else is returned (other authors, non-prefix keys)");
     ck!(s, ordered, "parents are returned shortest key first");
     std::mem::forget(res);
+}
+
+// ---------------------------------------------------------------------------------------------
+// C05 (E1): LatestPerKeySelector — the grouping used by latest-per-key queries
+// ---------------------------------------------------------------------------------------------
+use super::super::util::{IndexKind, LatestPerKeySelector, SelectorRes};
+
+/// C05: pushing a key-sorted sequence of three entries (keys k1 <= k2 <= k3 from {"a","a","b"} /
+/// {"a","b","b"} / {"a","a","a"} / {"a","b","c"}: pattern G concrete) and then end-of-input yields,
+/// per key, exactly one entry carrying the greatest timestamp of that key's group, in key order.
+pub fn selector_groups<S: Src, const G: u8>(s: &mut S) {
+    let keys: [&[u8]; 3] = match G {
+        0 => [b"a", b"a", b"b"],
+        1 => [b"a", b"b", b"b"],
+        2 => [b"a", b"a", b"a"],
+        _ => [b"a", b"b", b"c"],
+    };
+    let ts = [s.u64(), s.u64(), s.u64()];
+    let authors = [AUTHOR_A, AUTHOR_B, [0xC3u8; 32]];
+    let mut sel = LatestPerKeySelector::default();
+    let mut out: [Option<(usize, u64)>; 4] = [None; 4]; // (key index in `keys` by first occurrence, timestamp)
+    let mut n = 0;
+    let mut i = 0;
+    while i < 5 {
+        let input = if i < 3 { Some(mk_entry(NS, authors[i], keys[i], ts[i], false, i as u8)) } else { None };
+        match sel.push(input) {
+            SelectorRes::Continue => {}
+            SelectorRes::Finished => {}
+            SelectorRes::Some(e) => {
+                let ki = if e.key() == keys[0] { 0 } else if e.key() == keys[1] { 1 } else { 2 };
+                if n < 4 {
+                    out[n] = Some((ki, e.timestamp()));
+                }
+                n += 1;
+                std::mem::forget(e);
+            }
+        }
+        i += 1;
+    }
+    // oracle: groups of equal keys, max timestamp each
+    let mut want: [Option<(usize, u64)>; 4] = [None; 4];
+    let mut wn = 0;
+    let mut i = 0;
+    while i < 3 {
+        let first = i == 0 || keys[i] != keys[i - 1];
+        if first {
+            let mut m = ts[i];
+            let mut j = i + 1;
+            while j < 3 && keys[j] == keys[i] {
+                if ts[j] > m {
+                    m = ts[j];
+                }
+                j += 1;
+            }
+            let ki = if keys[i] == keys[0] { 0 } else if keys[i] == keys[1] { 1 } else { 2 };
+            want[wn] = Some((ki, m));
+            wn += 1;
+        }
+        i += 1;
+    }
+    cv!(s, G == 3 || ts[1] > ts[0], "selector_groups: the later entry of a group is newer");
+    ck!(s, n == wn, "a latest-per-key selection yields exactly one entry per key");
+    ck!(s, out == want, "each yielded entry carries the greatest timestamp among the entries of its key, in key order");
 }
